@@ -1,19 +1,37 @@
-"""Translator for the tag/report model M5 (C16, C36): regenerates lean/OPM/Gen/TagSites.lean from an AST scan of
+"""Translator for the tag/report model M5 (C16, C36): regenerates lean/OPM/Gen/TagSites.lean from an AST scan.
 
-    openpectus/lang/exec/tags.py, tags_impl.py, pinterpreter.py,
-    openpectus/engine/engine.py, internal_commands_impl.py, archiver.py, hardware_recovery.py,
-    engine_message_builder.py
+Call-site tables (files FILES: tags.py, tags_impl.py, pinterpreter.py, engine.py, internal_commands_impl.py,
+archiver.py, hardware_recovery.py, engine_message_builder.py):
 
 * `setSites`     every call `<x>.set_value(…)`, `set_value_and_unit`, `simulate_value`, `simulate_value_and_unit`
-                 with the syntactic class of the expression it passes as tick time:
-                 tickTime (a `tick_time` parameter or a `…._tick_time` field), tickNumber (`_tick_number` /
-                 `tick_number`), wallClock (`time.time()` / `time.monotonic()` / `time()`), forward (`*args` of an
-                 overriding wrapper), other.
-* `valueAssigns` every assignment to `self.value` / `self.simulated_value` / `self.simulated` inside a `Tag`
-                 subclass: kind init (in `__init__`), primitive (inside Tag.set_value / simulate_value /
-                 simulate_value_and_unit / stop_simulation themselves) or silent (anywhere else).
-* `stampSites`   every assignment to some `<x>.tick_time`, with the class of the right hand side.
-* `tickTimeFieldWrites`  every assignment to `self._tick_time` (Engine, PInterpreter), with the class of the rhs.
+                 with the *expression* it passes as tick time, translated to `ArgExpr`:
+                   param        the `tick_time` parameter of the enclosing (non-generator) function
+                   engineField  `Engine._tick_time` (`self._tick_time` inside Engine, `e._tick_time`, `engine._tick_time`)
+                   interpField  `PInterpreter._tick_time` (`self._tick_time` inside PInterpreter)
+                   wall         `time.time()` / `time.monotonic()` / `time()` (also through one local variable)
+                   tickNumber   `_tick_number` / `tick_number`
+                   forward      `*args` handed on by an overriding wrapper
+                   other        anything else — incl. a local variable of a *generator* function (a value captured
+                                before a `yield` outlives the tick) and `self.tick_time` (a tag's own old stamp)
+                 and the coarser `TimeClass` derived from it.
+* `stampSites`   every assignment to some `<x>.tick_time` (tag stamps), with the ArgExpr of the right hand side.
+* `tickTimeFieldWrites`  every assignment to `self._tick_time` (Engine, PInterpreter), with the ArgExpr of the rhs.
+* `engineTickStmts` / `interpTickStmts`   Engine.tick and PInterpreter.tick_iterate_subticks as statement lists in
+                 evaluation order: assignments of the `_tick_time` field, the bulk stamp of the first tick, and every
+                 call (dotted callee, ArgExpr of its first positional argument).
+* `tickTimeCalls` every call (wide scan) of a function that declares a parameter named `tick_time` (other than the
+                 four primitives above), with the ArgExpr passed in that position.
+
+Assignment table (WIDE scan: every .py below openpectus/engine and openpectus/lang/exec):
+
+* `valueAssigns` every assignment (plain, annotated, augmented, tuple target) to an attribute named `value`,
+                 `simulated_value` or `simulated` on ANY receiver, and every `setattr(obj, "<that name>", …)`:
+                   init        `self.<f>` in `__init__` of a Tag subclass
+                   primitive   `self.<f>` inside Tag.set_value / simulate_value(_and_unit) / stop_simulation
+                   silent      `self.<f>` anywhere else in a Tag subclass
+                   otherClass  `self.<f>` inside a class that is not a Tag subclass (TagValue, StackItem …)
+                   foreign     receiver is not `self` (e.g. `tag.value = …` in engine code, `item.value += …`)
+* `dynamicSetattrs` every `setattr` whose attribute name is not a string literal.
 
 The files are located through the imported `openpectus` package, so the scan follows PYTHONPATH.
 """
@@ -30,9 +48,12 @@ FILES = [
     "engine/engine.py", "engine/internal_commands_impl.py", "engine/archiver.py",
     "engine/hardware_recovery.py", "engine/engine_message_builder.py",
 ]
+WIDE_DIRS = ["engine", "lang/exec"]
 SET_METHODS = {"set_value": 1, "set_value_and_unit": 2, "simulate_value": 1, "simulate_value_and_unit": 2}
 PRIMITIVES = {"set_value", "set_value_and_unit", "simulate_value", "simulate_value_and_unit", "stop_simulation"}
 VALUE_FIELDS = {"value", "simulated_value", "simulated"}
+EXPR_TO_CLASS = {"param": "tickTime", "engineField": "tickTime", "interpField": "tickTime", "wall": "wallClock",
+                 "tickNumber": "tickNumber", "forward": "forward", "other": "other"}
 
 
 def repo_root() -> Path:
@@ -50,41 +71,84 @@ def _is_wall(e: ast.expr) -> bool:
     return isinstance(f, ast.Name) and f.id in ("time", "monotonic")
 
 
-def classify(e: ast.expr, fn: ast.FunctionDef | ast.AsyncFunctionDef | None, depth: int = 0) -> str:
+def _is_generator(fn: ast.AST) -> bool:
+    for n in ast.walk(fn):
+        if isinstance(n, (ast.Yield, ast.YieldFrom)):
+            return True
+    return False
+
+
+def arg_expr(e: ast.expr | None, fn, cls_name: str | None, depth: int = 0) -> str:
+    """Translate the expression passed as tick time."""
+    if e is None:
+        return "other"
     if _is_wall(e):
-        return "wallClock"
+        return "wall"
     if isinstance(e, ast.Attribute):
         if e.attr == "_tick_time":
-            return "tickTime"
+            recv_self = isinstance(e.value, ast.Name) and e.value.id == "self"
+            if recv_self:
+                return {"PInterpreter": "interpField", "Engine": "engineField"}.get(cls_name or "", "other")
+            src = ast.unparse(e.value)
+            if src in ("e", "engine", "self.engine", "instance.engine", "self._engine"):
+                return "engineField"
+            return "other"
         if e.attr in ("_tick_number", "tick_number"):
             return "tickNumber"
         return "other"
     if isinstance(e, ast.Name) and fn is not None:
         params = [a.arg for a in fn.args.posonlyargs + fn.args.args + fn.args.kwonlyargs]
         if e.id in params:
-            return {"tick_time": "tickTime", "tick_number": "tickNumber"}.get(e.id, "other")
+            if e.id == "tick_time":
+                # a parameter of a generator function is bound when the generator is created, not per tick
+                return "other" if _is_generator(fn) else "param"
+            return "tickNumber" if e.id == "tick_number" else "other"
+        if _is_generator(fn):
+            return "other"          # a local of a generator lives across ticks
         if depth < 3:
             rhs = [n.value for n in ast.walk(fn) if isinstance(n, ast.Assign)
                    and any(isinstance(t, ast.Name) and t.id == e.id for t in n.targets)]
             if len(rhs) == 1:
-                return classify(rhs[0], fn, depth + 1)
+                return arg_expr(rhs[0], fn, cls_name, depth + 1)
         return "other"
     return "other"
 
 
+def dotted(n: ast.AST) -> str:
+    if isinstance(n, ast.Attribute):
+        return dotted(n.value) + "." + n.attr
+    if isinstance(n, ast.Name):
+        return n.id
+    if isinstance(n, ast.Call):
+        return dotted(n.func) + "()"
+    if isinstance(n, ast.Subscript):
+        return dotted(n.value) + "[]"
+    return type(n).__name__
+
+
 class Scan(ast.NodeVisitor):
-    def __init__(self, rel: str, tag_classes: set[str]):
+    def __init__(self, rel: str, tag_classes: set[str], sites: bool, tt_funcs: dict[str, int]):
         self.rel = rel
         self.tag_classes = tag_classes
+        self.sites = sites                  # FILES: call-site tables too; otherwise assignments only
+        self.tt_funcs = tt_funcs
         self.cls: list[str] = []
         self.fn: list[ast.FunctionDef | ast.AsyncFunctionDef] = []
         self.set_sites: list[dict] = []
         self.assigns: list[dict] = []
+        self.dyn_setattrs: list[dict] = []
         self.stamps: list[dict] = []
         self.field_writes: list[dict] = []
+        self.time_calls: list[dict] = []
 
     def qual(self) -> str:
         return ".".join(self.cls + [f.name for f in self.fn]) or "<module>"
+
+    def cur_cls(self) -> str | None:
+        return self.cls[-1] if self.cls else None
+
+    def cur_fn(self):
+        return self.fn[-1] if self.fn else None
 
     def visit_ClassDef(self, node: ast.ClassDef):
         self.cls.append(node.name)
@@ -100,27 +164,50 @@ class Scan(ast.NodeVisitor):
 
     visit_AsyncFunctionDef = visit_FunctionDef
 
+    def _time_arg(self, node: ast.Call, pos: int):
+        arg = None
+        for kw in node.keywords:
+            if kw.arg == "tick_time":
+                arg = kw.value
+        plain = [a for a in node.args if not isinstance(a, ast.Starred)]
+        starred = any(isinstance(a, ast.Starred) for a in node.args)
+        if arg is None and len(plain) > pos:
+            arg = plain[pos]
+        return arg, starred
+
     def visit_Call(self, node: ast.Call):
         f = node.func
-        if isinstance(f, ast.Attribute) and f.attr in SET_METHODS:
-            pos = SET_METHODS[f.attr]
-            fn = self.fn[-1] if self.fn else None
-            arg = None
-            for kw in node.keywords:
-                if kw.arg == "tick_time":
-                    arg = kw.value
-            plain = [a for a in node.args if not isinstance(a, ast.Starred)]
-            starred = any(isinstance(a, ast.Starred) for a in node.args)
-            if arg is None and len(plain) > pos:
-                arg = plain[pos]
+        name = f.attr if isinstance(f, ast.Attribute) else f.id if isinstance(f, ast.Name) else None
+        if self.sites and isinstance(f, ast.Attribute) and f.attr in SET_METHODS:
+            arg, starred = self._time_arg(node, SET_METHODS[f.attr])
             if arg is not None:
-                cls, src = classify(arg, fn), ast.unparse(arg)
+                ex, src = arg_expr(arg, self.cur_fn(), self.cur_cls()), ast.unparse(arg)
             elif starred:
-                cls, src = "forward", "*args"
+                ex, src = "forward", "*args"
             else:
-                cls, src = "other", "<missing>"
-            self.set_sites.append({"file": self.rel, "line": node.lineno, "func": self.qual(), "method": f.attr,
-                                   "cls": cls, "arg": src})
+                ex, src = "other", "<missing>"
+            self.set_sites.append({"file": self.rel, "line": node.lineno, "end": node.end_lineno or node.lineno,
+                                   "func": self.qual(), "method": f.attr, "cls": EXPR_TO_CLASS[ex], "expr": ex,
+                                   "arg": src})
+        elif name in self.tt_funcs and name not in SET_METHODS:
+            arg, starred = self._time_arg(node, self.tt_funcs[name])
+            if arg is not None:
+                self.time_calls.append({"file": self.rel, "line": node.lineno, "func": self.qual(), "callee": name,
+                                        "expr": arg_expr(arg, self.cur_fn(), self.cur_cls()),
+                                        "arg": ast.unparse(arg)})
+            elif starred:
+                self.time_calls.append({"file": self.rel, "line": node.lineno, "func": self.qual(), "callee": name,
+                                        "expr": "forward", "arg": "*args"})
+        if name == "setattr" and isinstance(f, ast.Name) and len(node.args) >= 2:
+            a = node.args[1]
+            if isinstance(a, ast.Constant) and isinstance(a.value, str):
+                if a.value in VALUE_FIELDS:
+                    self.assigns.append({"file": self.rel, "line": node.lineno, "cls": self.cur_cls() or "",
+                                         "func": self.qual(), "field": a.value, "kind": "foreign",
+                                         "target": "setattr(" + ast.unparse(node.args[0]) + ")"})
+            else:
+                self.dyn_setattrs.append({"file": self.rel, "line": node.lineno, "func": self.qual(),
+                                          "src": ast.unparse(node)})
         self.generic_visit(node)
 
     def _target(self, t: ast.expr, value: ast.expr | None, line: int):
@@ -128,28 +215,34 @@ class Scan(ast.NodeVisitor):
             if isinstance(t, (ast.Tuple, ast.List)):
                 for x in t.elts:
                     self._target(x, None, line)
+            elif isinstance(t, ast.Starred):
+                self._target(t.value, None, line)
             return
-        fn = self.fn[-1] if self.fn else None
+        fn = self.cur_fn()
         fname = fn.name if fn else "<module>"
         is_self = isinstance(t.value, ast.Name) and t.value.id == "self"
-        if t.attr in VALUE_FIELDS and is_self and self.cls and self.cls[-1] in self.tag_classes:
-            if fname == "__init__":
-                kind = "init"
-            elif self.cls[-1] == "Tag" and fname in PRIMITIVES:
-                kind = "primitive"
+        in_tag = bool(self.cls) and self.cls[-1] in self.tag_classes
+        if t.attr in VALUE_FIELDS:
+            if is_self and in_tag:
+                kind = "init" if fname == "__init__" else \
+                    "primitive" if self.cls[-1] == "Tag" and fname in PRIMITIVES else "silent"
+            elif is_self and self.cls:
+                kind = "otherClass"
             else:
-                kind = "silent"
-            self.assigns.append({"file": self.rel, "line": line, "cls": self.cls[-1], "func": fname,
-                                 "field": t.attr, "kind": kind})
-        if t.attr == "tick_time" and not (is_self and self.cls and self.cls[-1] not in self.tag_classes):
+                kind = "foreign"
+            self.assigns.append({"file": self.rel, "line": line, "cls": self.cur_cls() or "", "func": self.qual(),
+                                 "field": t.attr, "kind": kind, "target": ast.unparse(t)})
+        if t.attr == "tick_time" and not (is_self and self.cls and not in_tag):
             # `<tag>.tick_time = …` (self.tick_time of non-tag classes such as CommandManager is not a tag stamp)
-            c = classify(value, fn) if value is not None else "other"
-            self.stamps.append({"file": self.rel, "line": line, "func": self.qual(), "cls": c,
-                                "init": fname == "__init__", "rhs": ast.unparse(value) if value is not None else ""})
-        if t.attr == "_tick_time" and is_self:
-            c = classify(value, fn) if value is not None else "other"
-            self.field_writes.append({"file": self.rel, "line": line, "func": self.qual(), "cls": c,
-                                      "init": fname == "__init__", "rhs": ast.unparse(value) if value is not None else ""})
+            ex = arg_expr(value, fn, self.cur_cls())
+            self.stamps.append({"file": self.rel, "line": line, "func": self.qual(), "cls": EXPR_TO_CLASS[ex],
+                                "expr": ex, "init": fname == "__init__",
+                                "rhs": ast.unparse(value) if value is not None else ""})
+        if t.attr == "_tick_time" and is_self and self.sites:
+            ex = arg_expr(value, fn, self.cur_cls())
+            self.field_writes.append({"file": self.rel, "line": line, "func": self.qual(), "cls": EXPR_TO_CLASS[ex],
+                                      "expr": ex, "init": fname == "__init__",
+                                      "rhs": ast.unparse(value) if value is not None else ""})
 
     def visit_Assign(self, node: ast.Assign):
         for t in node.targets:
@@ -162,6 +255,19 @@ class Scan(ast.NodeVisitor):
 
     def visit_AugAssign(self, node: ast.AugAssign):
         self._target(node.target, None, node.lineno)
+        self.generic_visit(node)
+
+    def visit_NamedExpr(self, node: ast.NamedExpr):
+        self.generic_visit(node)
+
+    def visit_For(self, node: ast.For):
+        self._target(node.target, None, node.lineno)
+        self.generic_visit(node)
+
+    def visit_With(self, node: ast.With):
+        for it in node.items:
+            if it.optional_vars is not None:
+                self._target(it.optional_vars, None, node.lineno)
         self.generic_visit(node)
 
 
@@ -181,19 +287,119 @@ def tag_class_closure(trees: dict[str, ast.Module]) -> set[str]:
     return known
 
 
-def scan() -> dict[str, list[dict]]:
+def tick_time_functions(trees: dict[str, ast.Module]) -> dict[str, int]:
+    """function name -> position of its `tick_time` parameter (self not counted); names declared with different
+    positions keep the smallest (the table then shows what is passed there)."""
+    out: dict[str, int] = {}
+    for tree in trees.values():
+        for n in ast.walk(tree):
+            if isinstance(n, (ast.FunctionDef, ast.AsyncFunctionDef)) and n.name != "__init__":
+                names = [a.arg for a in n.args.posonlyargs + n.args.args]
+                if names and names[0] in ("self", "cls"):
+                    names = names[1:]
+                if "tick_time" in names:
+                    p = names.index("tick_time")
+                    out[n.name] = min(out.get(n.name, p), p)
+    return out
+
+
+def stmt_list(fn: ast.FunctionDef, cls_name: str) -> list[dict]:
+    """Statements of a tick function in evaluation order: `_tick_time` assignments, bulk stamps, calls."""
+    out: list[dict] = []
+
+    def calls_in(e: ast.AST):
+        # evaluation order: arguments before the call itself
+        for c in ast.iter_child_nodes(e):
+            calls_in(c)
+        if isinstance(e, ast.Call):
+            a0 = e.args[0] if e.args and not isinstance(e.args[0], ast.Starred) else None
+            out.append({"kind": "call", "name": dotted(e.func),
+                        "expr": arg_expr(a0, fn, cls_name) if a0 is not None else "none"})
+
+    def walk(stmts):
+        for s in stmts:
+            if isinstance(s, (ast.Assign, ast.AnnAssign, ast.AugAssign)):
+                val = getattr(s, "value", None)
+                if val is not None:
+                    calls_in(val)
+                targets = s.targets if isinstance(s, ast.Assign) else [s.target]
+                for t in targets:
+                    if isinstance(t, ast.Attribute) and t.attr == "_tick_time":
+                        out.append({"kind": "assign", "name": ast.unparse(t), "expr": arg_expr(val, fn, cls_name)})
+                    elif isinstance(t, ast.Attribute) and t.attr == "tick_time":
+                        out.append({"kind": "stamp", "name": ast.unparse(t), "expr": arg_expr(val, fn, cls_name)})
+            elif isinstance(s, (ast.If, ast.While)):
+                calls_in(s.test)
+                walk(s.body)
+                walk(s.orelse)
+            elif isinstance(s, ast.For):
+                calls_in(s.iter)
+                walk(s.body)
+                walk(s.orelse)
+            elif isinstance(s, ast.With):
+                for it in s.items:
+                    calls_in(it.context_expr)
+                walk(s.body)
+            elif isinstance(s, ast.Try):
+                walk(s.body)
+                for h in s.handlers:
+                    walk(h.body)
+                walk(s.orelse)
+                walk(s.finalbody)
+            elif isinstance(s, (ast.FunctionDef, ast.AsyncFunctionDef, ast.ClassDef)):
+                pass
+            else:
+                calls_in(s)
+    walk(fn.body)
+    return out
+
+
+def find_method(tree: ast.Module, cls: str, name: str) -> ast.FunctionDef | None:
+    for n in ast.walk(tree):
+        if isinstance(n, ast.ClassDef) and n.name == cls:
+            for m in n.body:
+                if isinstance(m, (ast.FunctionDef, ast.AsyncFunctionDef)) and m.name == name:
+                    return m  # type: ignore[return-value]
+    return None
+
+
+def scan() -> dict:
     root = repo_root()
-    trees = {rel: ast.parse((root / rel).read_text(), filename=rel) for rel in FILES}
+    wide = sorted({str(p.relative_to(root)) for d in WIDE_DIRS for p in (root / d).rglob("*.py")
+                   if "test" not in p.relative_to(root).parts})
+    trees = {rel: ast.parse((root / rel).read_text(), filename=rel) for rel in sorted(set(wide) | set(FILES))}
     tag_classes = tag_class_closure(trees)
-    out: dict[str, list[dict]] = {"set_sites": [], "assigns": [], "stamps": [], "field_writes": []}
-    for rel, tree in trees.items():
-        s = Scan(rel, tag_classes)
-        s.visit(tree)
+    tt_funcs = tick_time_functions(trees)
+    out: dict = {"set_sites": [], "assigns": [], "stamps": [], "field_writes": [], "dyn_setattrs": [],
+                 "time_calls": []}
+    for rel in FILES + [r for r in trees if r not in FILES]:
+        s = Scan(rel, tag_classes, rel in FILES, tt_funcs)
+        s.visit(trees[rel])
         out["set_sites"] += s.set_sites
         out["assigns"] += s.assigns
         out["stamps"] += s.stamps
         out["field_writes"] += s.field_writes
-    out["tag_classes"] = sorted(tag_classes)  # type: ignore[assignment]
+        out["dyn_setattrs"] += s.dyn_setattrs
+        out["time_calls"] += s.time_calls
+    et = find_method(trees["engine/engine.py"], "Engine", "tick")
+    it = find_method(trees["lang/exec/pinterpreter.py"], "PInterpreter", "tick_iterate_subticks")
+    out["engine_tick"] = stmt_list(et, "Engine") if et is not None else []
+    # tick_iterate_subticks is a generator that is created and exhausted inside one PInterpreter.tick call:
+    # its parameter is that call's argument, so it is translated as an ordinary function
+    out["interp_tick"] = []
+    if it is not None:
+        import copy
+        plain = copy.deepcopy(it)
+        for n in ast.walk(plain):
+            for field, val in ast.iter_fields(n):
+                if isinstance(val, list):
+                    setattr(n, field, [ast.Pass() if isinstance(x, ast.Expr) and isinstance(x.value, (ast.Yield, ast.YieldFrom))
+                                       else x for x in val])
+        if not _is_generator(plain):
+            out["interp_tick"] = stmt_list(plain, "PInterpreter")
+    out["tag_classes"] = sorted(tag_classes)
+    out["tt_funcs"] = tt_funcs
+    out["wide_files"] = len(trees)
     return out
 
 
@@ -210,34 +416,62 @@ def lean_str(s: str) -> str:
 
 
 def render(t: dict) -> str:
+    def b(x: bool) -> str:
+        return "true" if x else "false"
     L = ["/- GENERATED by harness/translators/tag_sites.py from the source of the imported openpectus package"
          " -- do not edit. -/",
          "import OPM.Model.Tags", "namespace OPM.Gen.TagSites", "open OPM.Tags", "",
-         "structure SetSite where", "  file : String", "  line : Nat", "  func : String", "  method : String",
-         "  cls : TimeClass", "  arg : String", "deriving Repr, DecidableEq", "",
+         "structure SetSite where", "  file : String", "  line : Nat", "  endLine : Nat", "  func : String",
+         "  method : String", "  cls : TimeClass", "  expr : ArgExpr", "  arg : String", "deriving Repr, DecidableEq", "",
          "structure AssignSite where", "  file : String", "  line : Nat", "  cls : String", "  func : String",
-         "  field : String", "  kind : String", "deriving Repr, DecidableEq", "",
+         "  field : String", "  kind : String", "  target : String", "deriving Repr, DecidableEq", "",
          "structure StampSite where", "  file : String", "  line : Nat", "  func : String", "  cls : TimeClass",
-         "  init : Bool", "  rhs : String", "deriving Repr, DecidableEq", "",
+         "  expr : ArgExpr", "  init : Bool", "  rhs : String", "deriving Repr, DecidableEq", "",
+         "structure TimeCall where", "  file : String", "  line : Nat", "  func : String", "  callee : String",
+         "  expr : ArgExpr", "  arg : String", "deriving Repr, DecidableEq", "",
          "/-- every call of set_value / set_value_and_unit / simulate_value / simulate_value_and_unit -/",
          "def setSites : List SetSite := ["]
     L.append(",\n".join(
-        f"  ⟨{lean_str(s['file'])}, {s['line']}, {lean_str(s['func'])}, {lean_str(s['method'])}, .{s['cls']}, "
-        f"{lean_str(s['arg'])}⟩" for s in t["set_sites"]))
-    L += ["]", "", "/-- every assignment to self.value / self.simulated_value / self.simulated in a Tag subclass -/",
+        f"  ⟨{lean_str(s['file'])}, {s['line']}, {s['end']}, {lean_str(s['func'])}, {lean_str(s['method'])}, "
+        f".{s['cls']}, .{s['expr']}, {lean_str(s['arg'])}⟩" for s in t["set_sites"]))
+    L += ["]", "", "/-- every assignment to an attribute value / simulated_value / simulated, on any receiver -/",
           "def valueAssigns : List AssignSite := ["]
     L.append(",\n".join(
         f"  ⟨{lean_str(s['file'])}, {s['line']}, {lean_str(s['cls'])}, {lean_str(s['func'])}, "
-        f"{lean_str(s['field'])}, {lean_str(s['kind'])}⟩" for s in t["assigns"]))
+        f"{lean_str(s['field'])}, {lean_str(s['kind'])}, {lean_str(s['target'])}⟩" for s in t["assigns"]))
+    L += ["]", "", "/-- every setattr whose attribute name is not a literal: (file, function, source) -/",
+          "def dynamicSetattrs : List (String × String × String) := ["]
+    L.append(",\n".join(f"  ({lean_str(s['file'])}, {lean_str(s['func'])}, {lean_str(s['src'])})"
+                        for s in t["dyn_setattrs"]))
     L += ["]", "", "/-- every assignment to a tag's tick_time field -/", "def stampSites : List StampSite := ["]
     L.append(",\n".join(
-        f"  ⟨{lean_str(s['file'])}, {s['line']}, {lean_str(s['func'])}, .{s['cls']}, "
-        f"{'true' if s['init'] else 'false'}, {lean_str(s['rhs'])}⟩" for s in t["stamps"]))
+        f"  ⟨{lean_str(s['file'])}, {s['line']}, {lean_str(s['func'])}, .{s['cls']}, .{s['expr']}, "
+        f"{b(s['init'])}, {lean_str(s['rhs'])}⟩" for s in t["stamps"]))
     L += ["]", "", "/-- every assignment to self._tick_time (Engine, PInterpreter) -/",
           "def tickTimeFieldWrites : List StampSite := ["]
     L.append(",\n".join(
-        f"  ⟨{lean_str(s['file'])}, {s['line']}, {lean_str(s['func'])}, .{s['cls']}, "
-        f"{'true' if s['init'] else 'false'}, {lean_str(s['rhs'])}⟩" for s in t["field_writes"]))
+        f"  ⟨{lean_str(s['file'])}, {s['line']}, {lean_str(s['func'])}, .{s['cls']}, .{s['expr']}, "
+        f"{b(s['init'])}, {lean_str(s['rhs'])}⟩" for s in t["field_writes"]))
+    L += ["]", "", "/-- every call of a function that declares a `tick_time` parameter, with what is passed there -/",
+          "def tickTimeCalls : List TimeCall := ["]
+    L.append(",\n".join(
+        f"  ⟨{lean_str(s['file'])}, {s['line']}, {lean_str(s['func'])}, {lean_str(s['callee'])}, .{s['expr']}, "
+        f"{lean_str(s['arg'])}⟩" for s in t["time_calls"]))
+
+    def stmts(name: str, doc: str, items: list[dict]):
+        L.extend(["]", "", f"/-- {doc} -/", f"def {name} : List Stmt := ["])
+        rows = []
+        for s in items:
+            if s["kind"] == "assign":
+                rows.append(f"  .assign {lean_str(s['name'])} .{s['expr']}")
+            elif s["kind"] == "stamp":
+                rows.append(f"  .stamp .{s['expr']}")
+            else:
+                a = "none" if s["expr"] == "none" else f"(some .{s['expr']})"
+                rows.append(f"  .call {lean_str(s['name'])} {a}")
+        L.append(",\n".join(rows))
+    stmts("engineTickStmts", "Engine.tick in evaluation order", t["engine_tick"])
+    stmts("interpTickStmts", "PInterpreter.tick_iterate_subticks in evaluation order", t["interp_tick"])
     L += ["]", "", "/-- Tag and its subclasses found in the scanned files -/",
           "def tagClasses : List String := [" + ", ".join(lean_str(c) for c in t["tag_classes"]) + "]", "",
           "end OPM.Gen.TagSites", ""]
